@@ -196,6 +196,16 @@ func vfC02World(r *rep.R, wi int, w vfWorld, inits *vfInitCache) {
 				}
 				far := a.NewestAvail(a.Ref, 1_800_000_000_000+rng.Int63n(1e9), base, cfg.atoMS)
 				addBP(far, false)
+				if cfg.timesubs != "" && cfg.mode != "number" {
+					// the subtitle timeline is the video timeline converted to milliseconds: first-listed entries around powers of two
+					// (where a truncating or single-precision conversion first goes wrong for timescales that 1000 does not divide)
+					back := tsbdMS/segMS + 1
+					for k := uint(6); k <= 9; k++ {
+						for j := int64(0); j < 4; j++ {
+							addBP(int64(1)<<k+j+back, false)
+						}
+					}
+				}
 			}
 			for _, in := range ins {
 				if in.t < 0 {
